@@ -61,12 +61,30 @@ def _m2():
     return cfg
 
 
+def _late():
+    """Late presence notifications: a server registers and dies again before
+    the master handles the first notification."""
+    cfg = mastercfg.m2()
+    cfg['cellmonitors'] = [cellmon.mon_c03]
+    cfg['monitors'] = [mastermon.mon_c03_zk]
+    cfg['allow_late'] = True
+    cfg['allow_nocycle'] = False
+    cfg['events'] = mastercfg.ev(
+        ('app+', 'pl'), ('app+', 'hi'), ('app-', 0),
+        ('pres-', 's0'), ('pres+', 's0', 0), ('pres-', 's1'),
+        ('pres+', 's1', 0), ('noop',),
+    )
+    return cfg
+
+
 def configs(ctx):
     if ctx.quick:
         return [('K2', _k2(), 4, 1), ('K5', _k5(), 5, 0),
-                ('M2', _m2(), 3, 0, _masterprop.MasterSpec)]
+                ('M2', _m2(), 3, 0, _masterprop.MasterSpec),
+                ('M2-late', _late(), 4, 2, _masterprop.MasterSpec)]
     return [('K2', _k2(), 6, 1), ('K5', _k5(), 7, 0),
-            ('M2', _m2(), 5, 1, _masterprop.MasterSpec)]
+            ('M2', _m2(), 5, 1, _masterprop.MasterSpec),
+            ('M2-late', _late(), 6, 2, _masterprop.MasterSpec)]
 
 
 RULE = ('BFS over histories with re-assignment to another partition, label/'
